@@ -26,9 +26,11 @@ func main() {
 	g.pinnedHists()
 	g.pinnedReent()
 	g.ptrHist([]string{"bumpC", "readC", "goC", "bumpC", "goC", "fill", "readG", "goG"})
+	g.ptrHist([]string{"elemS", "readS", "goS", "elemM", "readM", "elemSplain"})
 	g.sameNameStructs()
 	g.sameNameCalls()
 	g.pinnedRetHist()
+	g.pinnedNamed()
 	g.fieldWriteCase(0, &gty{rt: kinds[0].rt, coq: "(TNum KI)", kind: "num", nk: 0}, jsString("eighty"))
 	g.fieldWriteCase(5, &gty{rt: kinds[0].rt, coq: "(TNum KI)", kind: "num", nk: 0}, jsx{"true", "(JBool true)"})
 	g.sweepFieldWrite()
@@ -36,7 +38,7 @@ func main() {
 	g.sweepStore()
 	g.sweepArity()
 	for env.Count() < env.N {
-		switch env.Rng.Intn(50) {
+		switch env.Rng.Intn(60) {
 		case 0, 1, 2:
 			g.randNum()
 		case 3, 4, 5:
@@ -69,6 +71,10 @@ func main() {
 			g.randFieldWrite()
 		case 40, 41, 42:
 			g.randRetHist()
+		case 43, 44, 45, 46:
+			g.namedCase(env.Rng.Intn(len(namedPaths)))
+		case 47, 48, 49, 50, 51:
+			g.partialCase()
 		default:
 			g.callCase()
 		}
